@@ -164,6 +164,21 @@ def build_coq():
         return time.time() - t0
 
 
+def build_coq_models():
+    """Compile only what extract/Extract.v needs (the model files, no proofs),
+    so that the executable model still runs when a proof is broken."""
+    with Lock("coq"):
+        rc, out, err = run(["coq_makefile", "-f", "_CoqProject", "-o", "Makefile"], cwd=COQ, timeout=120)
+        rc, out, err = run(["coqdep", "-Q", "theories", "Redo", "-sort", "extract/Extract.v"], cwd=COQ, timeout=60)
+        files = [f for f in out.decode().split() if f.startswith("theories/") and (f.endswith(".v") or f.endswith(".vo"))]
+        targets = [re.sub(r"\.v$", ".vo", f) for f in files]
+        rc, out, err = run(["make", "-j%d" % NCPU] + targets, cwd=COQ, timeout=3000)
+        if rc != 0:
+            text = (out + err).decode(errors="replace")
+            m = re.search(r'File "([^"]+)", line (\d+)', text)
+            raise Broken("Coq build of the model files failed at %s" % ("%s:%s" % (m.group(1), m.group(2)) if m else "?"), text[-3000:])
+
+
 def check_props(prop):
     """Compile props/<prop>.v (always, never cached), return
     (theorem names, assumptions per theorem)."""
@@ -272,7 +287,7 @@ def build_model():
         exe = os.path.join(OCAML_DIR, "model_driver")
         if os.path.exists(stamp) and open(stamp).read() == key and os.path.exists(exe):
             return exe
-        build_coq()
+        build_coq_models()
         rc, out, err = run(["coqc", "-Q", os.path.join(COQ, "theories"), "Redo", os.path.join(COQ, "extract", "Extract.v")], cwd=OCAML_DIR, timeout=600)
         if rc != 0:
             raise Broken("extraction failed", err.decode(errors="replace")[-3000:])
